@@ -280,7 +280,7 @@ theorem quota_flow_let (c : ECfg) (L : Lim) (n : Nat) (C : Ctx) (args : List Exp
 /-- **quota_flow_ucall**: every argument a `def`-ined function is called with has been measured before its body
     runs (they are the parameters `*args`, `**kwargs` of the registered wrapper) -/
 theorem quota_flow_ucall (c : ECfg) (L : Lim) (n : Nat) (C : Ctx) (f : Name) (args : List Expr) (kw : List (Expr × Expr))
-    (o : ObjL) (body : Expr) (D : Ctx) (hf : C.getFun f = some (body, D))
+    (o : ObjL) (body : Expr) (D : Ctx) (hf : C.getFun (Eval.fnKey f) = some (body, D))
     (h : evalL c L (n + 1) C (.ucall f args kw) = .ok o) :
     ∃ (names : List Name) (vs kvs : VL), evalListL (evalL c L n) C args = .ok vs ∧ evalListL (evalL c L n) C (kw.map (·.2)) = .ok kvs
       ∧ (∀ v ∈ vs ++ kvs, EvalLimits.measure L (sizeofV c v) = .ok ())
